@@ -243,6 +243,11 @@ fn force_values(m: &Machine) -> Option<String> {
     // force every lazily evaluated representation *before* satisfaction is judged
     for (i, r) in m.ev.iter().enumerate() {
         if let Some(r) = r {
+            if r.poisoned {
+                // an undecodable lazy variable has no native value to compare with, and reading its
+                // value would itself emit the decoding constraints and mask a gadget that forgot them
+                continue;
+            }
             let v = catch_unwind(AssertUnwindSafe(|| r.var.value()));
             match v {
                 Ok(Ok(got)) => {
